@@ -27,7 +27,7 @@ DEFAULT_PROFILE = dict(
     party={"scripted": 4, "uncontrolled": 2, "greedy": 2, "rr": 1},
     sorts=["fcfs", "lcfs", "edf", "llf", "lrpt"],
     max_recompute=[None, None, 1, 1, 2, 3, 7],
-    periods=[1, 5, 5, 7.5, 15, 60],
+    periods=[1, 5, 5, 5, 7.5, 15, 15, 60, 0.5, 2.5, 4.1, 0.125],
     extra_recompute=0.4,
     vacant_pilots=0.5,
     sid_mode={"plain": 3, "crossed": 1},
@@ -48,6 +48,8 @@ DEFAULT_PROFILE = dict(
     custom_events=0.0,            # probability of user-defined base Events placed in periods that also hold a built-in event
     near_level_pilots=0.0,        # scripted party: share of finite-rate pilots placed within the EVSE's 1e-3 A tolerance of a level
     reconfig=0.0,                 # probability that the operator changes constraint limits mid-run (environment fault)
+    refill=0.15,                  # probability that later events are added to the simulator's queue only after run() returned (run() is then called again)
+    event_subclass=0.1,           # probability that the world's plug-in / recompute events are instances of user subclasses of the built-in event types
 )
 
 
@@ -289,6 +291,19 @@ def gen_world(rs: int, P: dict) -> dict:
     rl = sub(rs, "second_life")
     if P.get("second_life", 0) and P["net"] == "custom" and rl.random() < P["second_life"]:
         sc["second_life"] = {k: rl.random() < 0.6 for k in ("network", "queue", "evs", "algo")}
+    rf2 = sub(rs, "refill")
+    if P.get("refill", 0) and rf2.random() < P["refill"]:
+        cuts = refill_cuts(sc)
+        if cuts:
+            sc["refill"] = sorted(rf2.sample(cuts, min(len(cuts), rf2.choice([1, 1, 2]))))
+    rs2 = sub(rs, "evsub")
+    if P.get("event_subclass", 0) and rs2.random() < P["event_subclass"]:
+        for s_ in sessions:
+            if rs2.random() < 0.5:
+                s_["ev_sub"] = True
+        for e_ in extra:
+            if e_.get("type") != "Event" and rs2.random() < 0.5:
+                e_["sub"] = True
     rr2 = sub(rs, "reconfig")
     if cons and P.get("reconfig", 0) and rr2.random() < P["reconfig"] and last >= 1:
         rc = []
@@ -362,6 +377,24 @@ def ambiguous_periods(sc):
     return sorted(t for t, l in event_times(sc).items() if all(k == "Event" for k, _ in l))
 
 
+def refill_cuts(sc):
+    """Valid 'refill' cut times of a scenario: T such that every event before T (incl. the unplug of every session that
+    arrived before T) lies before T and at least one event lies on either side. With such a cut the run over the early
+    events has ended (iteration <= T) when the operator adds the later events to the simulator's queue and calls run() again."""
+    ev = event_times(sc)
+    times = sorted(ev)
+    out = []
+    for T in times[1:]:
+        if all(s["departure"] < T for s in sc["sessions"] if s["arrival"] < T):
+            out.append(T)
+    return out
+
+
+def valid_refill(sc):
+    ok = set(refill_cuts(sc))
+    return sorted(c for c in (sc.get("refill") or []) if c in ok)
+
+
 def last_event_time(sc):
     return max(event_times(sc).keys())
 
@@ -422,6 +455,7 @@ def gen_faults(rs, sc, P):
                 f["resume"] = rf.choice(P["resume_modes"])
             elif kind == "malformed":
                 f["how"] = rf.choice(["unknown_station", "ragged"])
+                f["variant"] = rf.choice(["plus1", "one_short", "last_long", "empty_row", "first_long_rest_one"])
             elif kind == "beyond_horizon":
                 f["extra_len"] = rf.randint(1, 6)
             elif kind == "invalid_pilot":
